@@ -680,9 +680,38 @@ func (e *omegaEnv) errorExits(f *ssa.Function) []mutation {
 
 // ruleNoMutationBeforeError (HC5/HC6).
 func (e *omegaEnv) ruleNoMutationBeforeError(rule string, exempt map[string]string) {
+	e.ruleNoMutationBeforeErrorF(rule, exempt, nil)
+}
+
+// helperFuncs: in-package non-omega functions that receive the register file
+// (they set result codes on behalf of a host call).
+func (e *omegaEnv) helperFuncs() []*ssa.Function {
+	var out []*ssa.Function
+	isOmega := map[*ssa.Function]bool{}
+	for _, f := range e.funcs {
+		isOmega[f] = true
+	}
+	for _, f := range e.c.SrcFuncs("PVM") {
+		if isOmega[f] {
+			continue
+		}
+		for _, p := range f.Params {
+			if e.registersT != nil && types.Identical(derefType(p.Type()), e.registersT) {
+				if _, isPtr := p.Type().Underlying().(*types.Pointer); isPtr {
+					out = append(out, f)
+				}
+			}
+		}
+	}
+	return out
+}
+
+func (e *omegaEnv) ruleNoMutationBeforeErrorF(rule string, exempt map[string]string, keep func(exit string) bool) {
 	c := e.c
 	sum := e.mutatorSummary()
-	for _, f := range e.funcs {
+	funcs := append([]*ssa.Function{}, e.funcs...)
+	funcs = append(funcs, e.helperFuncs()...)
+	for _, f := range funcs {
 		exits := e.errorExits(f)
 		var muts []mutation
 		allInstrs(f, func(in ssa.Instruction) {
@@ -691,6 +720,9 @@ func (e *omegaEnv) ruleNoMutationBeforeError(rule string, exempt map[string]stri
 			}
 		})
 		for _, x := range exits {
+			if keep != nil && !keep(x.desc) {
+				continue
+			}
 			bad := 0
 			for _, m := range muts {
 				if _, reach := findPathF(pathQuery{start: m.in, target: func(in ssa.Instruction) bool { return in == x.in }}); !reach {
